@@ -50,13 +50,28 @@ class Inconclusive(Exception):
 def env():
     e = dict(os.environ)
     e.update({
-        "GOFLAGS": "-mod=mod", "GOPROXY": "off", "GOSUMDB": "off", "GOTOOLCHAIN": "local",
+        # -trimpath: build-cache keys then do not depend on the directory of /repo or of a scratch worktree (VERIF_REPO), so the few
+        # hundred corpus packages that import csproto are compiled once per CONTENT of csproto, not once per checkout location
+        "GOFLAGS": "-mod=mod -trimpath", "GOPROXY": "off", "GOSUMDB": "off", "GOTOOLCHAIN": "local",
         "JAVA_TOOL_OPTIONS": "-Xss512m",
     })
     if COVER:
         os.makedirs(COVER, exist_ok=True)
         e["GOCOVERDIR"] = COVER
     return e
+
+
+def disk_guard(min_free_gb=8):
+    """The Go build cache only trims entries older than five days; many checks of many differing trees can fill the disk within
+    hours, after which every check is inconclusive.  When the cache's file system is nearly full the cache is emptied (it is a cache)."""
+    try:
+        gocache = subprocess.run(["go", "env", "GOCACHE"], env=env(), stdout=subprocess.PIPE, text=True).stdout.strip() or os.path.expanduser("~/.cache/go-build")
+        st = os.statvfs(gocache if os.path.isdir(gocache) else "/")
+        if st.f_bavail * st.f_frsize < min_free_gb << 30:
+            log("disk_guard: less than %d GB free, emptying the Go build cache" % min_free_gb)
+            subprocess.run(["go", "clean", "-cache"], env=env(), stdout=subprocess.DEVNULL, stderr=subprocess.DEVNULL)
+    except Exception as ex:  # never let housekeeping decide a check
+        log("disk_guard: %s" % ex)
 
 
 def log(*a):
